@@ -242,9 +242,11 @@ def wrong_term(T, n, spec, result):
 
 
 def shape_unit(p, item, tier, seed):
-    n, m, rname, qsel = item
+    n, m, rname, qsel = item[:4]
     T = [[z3.Bool(f"t_{k}_{j}") for j in range(1 << n)] for k in range(m)]
     qs = queries(n, m)
+    if len(item) > 4:  # only the queries whose name starts with one of these (four inputs: the cheap, early-exit queries)
+        qs = [q for q in qs if q[0].startswith(tuple(item[4]))]
     if qsel is not None:
         qs = [q for i, q in enumerate(qs) if i % qsel[1] == qsel[0]]
     for qname, call, spec in qs:
@@ -880,6 +882,10 @@ def run(rep, tier, seed, only=None):
             for rname in REPRS:
                 k = 1 if (n, m) in ((1, 1), (2, 1), (1, 2)) else (6 if (n, m) != (3, 2) else 16)
                 items += [(n, m, rname, (i, k)) for i in range(k)]
+        # four inputs (where e.g. rotations and reflections stop generating every permutation): symmetry, constancy, monotonicity
+        for rname in REPRS:
+            for pref in (("is_symmetric",), ("is_constant", "is_monotone"), ("is_output_equal",)):
+                items.append((4, 1, rname, None, pref))
         rep.pmap(shape_unit, items)
     if sub("index"):
         rep.pmap(index_unit, [(n, sh) for n in range(1, 7 if thorough else 6) for sh in SHAPES])
